@@ -56,8 +56,12 @@ def case(draw):
             mk = None
         elif r <= 21:
             mk = 'plain'
-        elif r <= 28:
+        elif r <= 27:
             mk = draw(st.sampled_from(FMTS))
+        elif r == 28:
+            # a plain Manifest and, next to it, a stale compressed one that
+            # IGNOREs the start path (the plain one is the Manifest)
+            mk = 'both'
         else:
             mk = 'junk'
         ignores = []
@@ -66,7 +70,14 @@ def case(draw):
             for _ in range(draw(st.integers(0, 2))):
                 kind = draw(st.sampled_from(
                     ['exact', 'ancestor', 'sibling', 'lookalike', 'longer',
-                     'unrelated']))
+                     'unrelated', 'from-above']))
+                if kind == 'from-above':
+                    # the start path as seen from the directory above this
+                    # Manifest's: matches nothing here
+                    if lvl >= 1:
+                        ignores.append('/'.join(names[lvl - 1:start])
+                                       or names[lvl - 1])
+                    continue
                 if kind == 'unrelated' or not rel:
                     ignores.append(draw(st.sampled_from(
                         ['distfiles', 'zz/yy', 'packages'])))
@@ -203,9 +214,15 @@ def run_case(desc):
             nman += 1
             text = manifest_text(level)
             d = paths[lvl]
-            if mk == 'plain':
+            if mk in ('plain', 'both'):
                 with open(os.path.join(d, 'Manifest'), 'w') as f:
                     f.write(text)
+                if mk == 'both':
+                    relp = '/'.join(desc['names'][lvl:desc['start']])
+                    stale = ('IGNORE ' + R.escape_path(relp) + '\n') \
+                        if relp else ''
+                    with open(os.path.join(d, 'Manifest.gz'), 'wb') as f:
+                        f.write(R.compress(stale.encode('utf8'), 'gz'))
             elif mk == 'junk':
                 with open(os.path.join(d, 'Manifest'), 'w') as f:
                     f.write('this is not a Manifest\n')
